@@ -43,12 +43,12 @@ package atree
 //@ iface SlabStorage.Store(id, slab) (err)
 //@   ensures err == nil ==> sto == upd(old(sto), id, slab) && stored == add(old(stored), slab)
 //@   ensures err != nil ==> sto == old(sto) && stored == old(stored)
-//@   modifies ghost.sto, ghost.stored
+//@   modifies ghost.sto, ghost.issued, ghost.stored
 
 //@ iface SlabStorage.Remove(id) (err)
 //@   ensures err == nil ==> sto == upd(old(sto), id, nil)
 //@   ensures err != nil ==> sto == old(sto)
-//@   modifies ghost.sto
+//@   modifies ghost.sto, ghost.issued
 
 //@ iface SlabStorage.Retrieve(id) (slab, found, err)
 //@   ensures err == nil ==> slab == sto[id] && found == (slab != nil)
@@ -59,25 +59,32 @@ package atree
 //@   ensures slab == nil || slab == sto[id]
 //@   pure
 
+//@ # issued: the identifiers handed out so far (ghost). A new identifier differs from every identifier handed out earlier, also from
+//@ # those that are not stored yet (assumed of the storage; for PersistentSlabStorage it is the strictly increasing index counter).
+//@ ghost issued : set[SlabID]
 //@ iface SlabStorage.GenerateSlabID(address) (id, err)
 //@   ensures err == nil ==> id.address == address && id != SlabIDUndefined && sto[id] == nil
-//@   pure
+//@   ensures err == nil ==> !has(old(issued), id) && issued == add(old(issued), id)
+//@   ensures err != nil ==> issued == old(issued)
+//@   modifies ghost.issued
 
 //@ func storeSlab(storage, slab) (err)  serves C03 C18
 //@   requires storage != nil && slab != nil
 //@   ensures err == nil ==> sto == upd(old(sto), old(sid(slab)), slab) && stored == add(old(stored), slab)
 //@   ensures err != nil ==> sto == old(sto) && stored == old(stored) && categorised(err)
-//@   modifies ghost.sto, ghost.stored
+//@   modifies ghost.sto, ghost.issued, ghost.stored
 
 //@ # ---------------------------------------------------------------- caller-supplied values
 
 //@ ghost valueRoot : fn(v Value) ref
 
 //@ iface Value.Storable(storage, address, maxInlineSize) (st, err)
+//@   conform all
+//@   serves C10
 //@   ensures err == nil ==> st != nil && bs(st) <= maxInlineSize
 //@   ensures err != nil ==> st == nil
 //@   ensures forall id SlabID :: old(sto[id]) != nil && old(sto[id]) != valueRoot(recv) ==> sto[id] == old(sto[id])
-//@   modifies ghost.sto, ghost.stored, ghost.touched, alloc, as(valueRoot(recv), *ArrayDataSlab).header, as(valueRoot(recv), *ArrayDataSlab).inlined, as(valueRoot(recv), *MapDataSlab).header, as(valueRoot(recv), *MapDataSlab).inlined
+//@   modifies ghost.sto, ghost.issued, ghost.stored, ghost.touched, alloc, as(valueRoot(recv), *ArrayDataSlab).header, as(valueRoot(recv), *ArrayDataSlab).inlined, as(valueRoot(recv), *MapDataSlab).header, as(valueRoot(recv), *MapDataSlab).inlined
 
 //@ # ---- Storable (caller-supplied or atree's own): copying and inspection do not write atree-internal state (A2)
 //@ # (Storable.CopyNonRefSimple / CanCopyNonRefSimple: see verif_contracts_copy.go)
@@ -86,8 +93,15 @@ package atree
 //@ # on every storable it enumerates, so the counter is the number of references it has seen
 //@ ghost refsEnumerated : int
 //@ iface Storable.ChildStorables() (r)
+//@   conform all
+//@   serves C20
 //@   ghostdef refsEnumerated == old(refsEnumerated) + ite(is(recv, SlabIDStorable), 1, 0)
 //@   modifies ghost.refsEnumerated, alloc
 
+//@ # svOf(s): the value a storable stands for (a function of the storable; A4)
+//@ ghost svOf : fn(s Storable) ref
 //@ iface Storable.StoredValue(storage) (v, err)
+//@   conform all
+//@   serves C18
+//@   ensures err == nil ==> v == svOf(recv) && v != nil
 //@   modifies alloc
